@@ -404,7 +404,7 @@ _A = 'assembler/bytecode/assembled.py'
 _M = 'assembler/bytecode/generator/macro.py'
 MUTANTS = [
     V('c10-empty-variant-dropped', 'assembler/model/instruction_macro.py', "            variant_num += 1\n            self._variants.append(", "            variant_num += 1\n            if not variant_config.get('instructions'):\n                continue\n            self._variants.append(", 'C10.5'),
-    V('c10-relative-operand-text-rebound', 'assembler/model/operand/types/relative_address.py', "        bytecode_part = NumericByteCodePart(\n            self.bytecode_value,\n            self.bytecode_size,\n            False,\n            'big',\n            line_id\n        ) if self.bytecode_value is not None else None\n        arg_part = RelativeAddressByteCodePart(", "        operand = match.group(1).strip()\n        bytecode_part = NumericByteCodePart(\n            self.bytecode_value,\n            self.bytecode_size,\n            False,\n            'big',\n            line_id\n        ) if self.bytecode_value is not None else None\n        arg_part = RelativeAddressByteCodePart(", 'C10.2'),
+    V('c10-relative-operand-text-rebound', 'assembler/model/operand/types/relative_address.py', "        bytecode_part = NumericByteCodePart(\n            self.bytecode_value,\n            self.bytecode_size,\n            False,\n            'big',\n            line_id\n        ) if self.bytecode_value is not None else None\n        try:\n            arg_part = RelativeAddressByteCodePart(", "        operand = match.group(1).strip()\n        bytecode_part = NumericByteCodePart(\n            self.bytecode_value,\n            self.bytecode_size,\n            False,\n            'big',\n            line_id\n        ) if self.bytecode_value is not None else None\n        try:\n            arg_part = RelativeAddressByteCodePart(", 'C10.2'),
     V('c10-same-address', _A, "step_bytes = instr.get_bytes(label_scope, step_address, instr.byte_size)", "step_bytes = instr.get_bytes(label_scope, instruction_address, instr.byte_size)", 'C10.1'),
     V('c10-no-advance', _A, "            step_address += instr.byte_size\n", "", 'C10.1'),
     V('c10-size-before-super', _A, '''        super().__init__(line_id, parts)
